@@ -20,9 +20,11 @@ CONSTANTS
   DualDims = {2}
   SliceBy = "global"
   SwapBlockedSettings = FALSE
+  DtypeRule = "all"
   EmitJson = TRUE
 INVARIANT RhsLayout
 INVARIANT SolutionLayout
+INVARIANT RhsKeepsComplex
 INVARIANT SettingsHandedOn
 INVARIANT ReturnShape
 INVARIANT Emit
@@ -60,7 +62,7 @@ def body():
         chk.violation("spec:" + str(res.violated), "TLC: Solvers violates %s" % res.violated, {"trace": res.trace[-1:]})
         return chk.finish()
     chk.require_coverage(res, ["Pack", "Solve", "Unpack", "Return"])
-    for cfgname, inv in (("Solvers_neg_slice.cfg", "SolutionLayout"), ("Solvers_neg_settings.cfg", "SettingsHandedOn")):
+    for cfgname, inv in (("Solvers_neg_slice.cfg", "SolutionLayout"), ("Solvers_neg_settings.cfg", "SettingsHandedOn"), ("Solvers_neg_dtype.cfg", "RhsKeepsComplex")):
         neg = common.run_tlc("Solvers", cfgname, timeout=1200)
         chk.add_tlc("Solvers negative configuration %s" % cfgname, neg, note="must violate %s" % inv)
         if neg.ok or inv not in str(neg.violated):
@@ -297,6 +299,41 @@ def body():
                         chk.violation("dual_spaces:accuracy", "%s: solution differs from f by %.3g" % (label, e_), {})
     except Exception as exc:
         chk.violation("dual_spaces:exception", "%s: %s" % (type(exc).__name__, str(exc)[:200]), {})
+    # (c) right-hand sides whose entries have different dtypes (RhsKeepsComplex): the stacked vector keeps every imaginary part
+    try:
+        A = api.BlockedOperator(2, 2)
+        A[0, 0], A[0, 1], A[1, 0], A[1, 1] = block(2, 2, 2, False), block(3, 2, 2, False), block(2, 3, 3, False), block(3, 3, 3, False)
+        Wd = np.asarray(A.weak_form().to_dense())
+        for dts in (("c", "r"), ("r", "c"), ("c", "c"), ("r", "r")):
+            ps = [rng.randint(-3, 4, sp[d].global_dof_count).astype(float) + (1j * rng.randint(-3, 4, sp[d].global_dof_count) if t_ == "c" else 0) for d, t_ in zip((2, 3), dts)]
+            b = [api.GridFunction(sp[d], projections=p_, dual_space=sp[d]) for d, p_ in zip((2, 3), ps)]
+            want = np.linalg.solve(Wd, np.concatenate(ps))
+            for name, solve in (("lu", lambda: api.lu(A, b)), ("lu_factors", lambda: api.lu(A, b, lu_factor=api.compute_lu_factors(A))), ("gmres weak", lambda: api.gmres(A, b, tol=1e-12)[0])):
+                label = "%s blocked 2x2, right-hand side entries of dtypes %s" % (name, dts)
+                chk.count(label, True)
+                sol = solve()
+                x = np.concatenate([f.coefficients for f in sol])
+                e_ = np.abs(x - want).max() / max(1.0, np.abs(want).max())
+                if e_ > 1e-8:
+                    chk.violation("rhs_dtype:%s" % name.split(" ")[0], "%s: solution differs from the solution of the stacked system by %.3g (an imaginary part was dropped?)" % (label, e_), {"dtypes": dts})
+    except Exception as exc:
+        chk.violation("rhs_dtype:exception", "%s: %s" % (type(exc).__name__, str(exc)[:200]), {})
+    # (d) single operators whose dual space differs from the range space, right-hand side given by coefficients (its own dual space is
+    #     the range space): RhsLayout demands the projections onto the operator's dual space, with and without precomputed factors
+    try:
+        d0 = api.function_space(g, "DUAL", 0)
+        p1 = sp[2]
+        A = ident(p1, p1, d0)
+        cvec = rng.randint(-3, 4, p1.global_dof_count).astype(float) + 1j * rng.randint(-3, 4, p1.global_dof_count)
+        b = api.GridFunction(p1, coefficients=cvec)
+        sols = {"lu": api.lu(A, b), "lu_factors": api.lu(A, b, lu_factor=api.compute_lu_factors(A)), "gmres": api.gmres(A, b, tol=1e-12)[0]}
+        for name, sol in sols.items():
+            chk.count("%s single operator with dual != range, coefficient right-hand side" % name, True)
+            e_ = np.abs(sol.coefficients - cvec).max()
+            if sol.space != p1 or e_ > 1e-8 * max(1.0, np.abs(cvec).max()):
+                chk.violation("rhs_dual:%s" % name, "%s(identity(P1, P1, DUAL0), f) with f given by coefficients does not return f (off by %.3g): the right-hand side was not projected onto the operator's dual space" % (name, e_), {})
+    except Exception as exc:
+        chk.violation("rhs_dual:exception", "%s: %s" % (type(exc).__name__, str(exc)[:200]), {})
     chk.cov["rule"] = "one obligation per terminal state of Solvers (solver x block shape x dimensions x form x return flags) realisable as a well-conditioned system, times tolerance/restart/maxiter variants"
     chk.cov["unrealisable_configurations"] = skipped
     return chk.finish()
